@@ -41,6 +41,56 @@ pub struct DecodedRpc {
     pub subscriptions: Vec<(bool, String)>,
     /// debug text of every control action
     pub control: Vec<String>,
+    /// plain-data view of every control action
+    pub controls: Vec<ControlView>,
+}
+
+/// Plain-data view of a control action.
+#[derive(Debug, Clone, Default, PartialEq, Eq)]
+pub struct ControlView {
+    /// "ihave" | "iwant" | "graft" | "prune" | "idontwant" | "extensions"
+    pub kind: &'static str,
+    pub topic: Option<String>,
+    pub message_ids: Vec<Vec<u8>>,
+    pub backoff: Option<u64>,
+    pub px_peers: usize,
+}
+
+fn control_view(c: &ControlAction) -> ControlView {
+    match c {
+        ControlAction::IHave(x) => ControlView {
+            kind: "ihave",
+            topic: Some(x.topic_hash.as_str().to_owned()),
+            message_ids: x.message_ids.iter().map(|m| m.0.clone()).collect(),
+            ..Default::default()
+        },
+        ControlAction::IWant(x) => ControlView {
+            kind: "iwant",
+            message_ids: x.message_ids.iter().map(|m| m.0.clone()).collect(),
+            ..Default::default()
+        },
+        ControlAction::Graft(x) => ControlView {
+            kind: "graft",
+            topic: Some(x.topic_hash.as_str().to_owned()),
+            ..Default::default()
+        },
+        ControlAction::Prune(x) => ControlView {
+            kind: "prune",
+            topic: Some(x.topic_hash.as_str().to_owned()),
+            backoff: x.backoff,
+            px_peers: x.peers.len(),
+            ..Default::default()
+        },
+        ControlAction::IDontWant(x) => ControlView {
+            kind: "idontwant",
+            message_ids: x.message_ids.iter().map(|m| m.0.clone()).collect(),
+            ..Default::default()
+        },
+        _ => ControlView {
+            kind: "extensions",
+            ..Default::default()
+        },
+    }
 }
 
 #[derive(Debug, Clone, Default, PartialEq, Eq)]
@@ -91,7 +141,115 @@ pub fn view_handler_event(ev: &HandlerEvent) -> Option<DecodedRpc> {
                 .iter()
                 .map(|c: &ControlAction| format!("{c:?}"))
                 .collect(),
+            controls: rpc.control_msgs.iter().map(control_view).collect(),
         }),
         _ => None,
     }
+}
+
+pub use crate::behaviour::verif::peer_kind_event;
+
+/// The real duplicate cache (time based), keyed by message id bytes.
+pub struct DuplicateCache(crate::time_cache::DuplicateCache<crate::MessageId>);
+
+impl DuplicateCache {
+    pub fn new(ttl: std::time::Duration) -> Self {
+        Self(crate::time_cache::DuplicateCache::new(ttl))
+    }
+    pub fn insert(&mut self, id: &[u8]) -> bool {
+        self.0.insert(crate::MessageId::new(id))
+    }
+    pub fn contains(&self, id: &[u8]) -> bool {
+        self.0.contains(&crate::MessageId::new(id))
+    }
+}
+
+/// The real message cache (heartbeat based).
+pub struct MessageCache(crate::mcache::MessageCache);
+
+impl MessageCache {
+    pub fn new(history_gossip: usize, history_length: usize) -> Self {
+        Self(crate::mcache::MessageCache::new(history_gossip, history_length))
+    }
+    pub fn put(&mut self, id: &[u8], topic: &str, data: Vec<u8>) -> bool {
+        let msg = crate::RawMessage {
+            source: None,
+            data,
+            sequence_number: None,
+            topic: TopicHash::from_raw(topic),
+            signature: None,
+            key: None,
+            validated: false,
+        };
+        self.0.put(&crate::MessageId::new(id), msg)
+    }
+    pub fn validate(&mut self, id: &[u8]) -> bool {
+        self.0.validate(&crate::MessageId::new(id)).is_some()
+    }
+    /// Serve an IWANT: the message data and the request count for that peer.
+    pub fn get_with_iwant_counts(
+        &mut self,
+        id: &[u8],
+        peer: &libp2p_identity::PeerId,
+    ) -> Option<(Vec<u8>, u32)> {
+        self.0
+            .get_with_iwant_counts(&crate::MessageId::new(id), peer)
+            .map(|(m, c)| (m.data.clone(), c))
+    }
+    pub fn gossip_ids(&self, topic: &str) -> Vec<Vec<u8>> {
+        self.0
+            .get_gossip_message_ids(&TopicHash::from_raw(topic))
+            .into_iter()
+            .map(|m| m.0)
+            .collect()
+    }
+    pub fn shift(&mut self) {
+        self.0.shift()
+    }
+    pub fn remove(&mut self, id: &[u8]) -> bool {
+        self.0.remove(&crate::MessageId::new(id)).is_some()
+    }
+}
+
+/// The real backoff storage.
+pub struct BackoffStorage(crate::backoff::BackoffStorage);
+
+impl BackoffStorage {
+    pub fn new(
+        prune_backoff: std::time::Duration,
+        heartbeat_interval: std::time::Duration,
+        backoff_slack: u32,
+    ) -> Self {
+        Self(crate::backoff::BackoffStorage::new(
+            &prune_backoff,
+            heartbeat_interval,
+            backoff_slack,
+        ))
+    }
+    pub fn update_backoff(
+        &mut self,
+        topic: &str,
+        peer: &libp2p_identity::PeerId,
+        time: std::time::Duration,
+    ) {
+        self.0.update_backoff(&TopicHash::from_raw(topic), peer, time)
+    }
+    pub fn is_backoff_with_slack(&self, topic: &str, peer: &libp2p_identity::PeerId) -> bool {
+        self.0.is_backoff_with_slack(&TopicHash::from_raw(topic), peer)
+    }
+    pub fn heartbeat(&mut self) {
+        self.0.heartbeat()
+    }
+}
+
+/// The wire codec exactly as a connection handler of a behaviour with this `config` builds it.
+pub fn codec_for(config: &crate::Config) -> GossipsubCodec {
+    let p = config.protocol_config();
+    GossipsubCodec::new(
+        p.default_max_transmit_size,
+        p.validation_mode,
+        p.max_transmit_sizes,
+        p.max_publish_messages,
+        p.max_control_message_size,
+    )
 }
